@@ -259,9 +259,15 @@ func init() {
 	mc.Register(&mc.ScenarioDef{Scn: scnMaxApps("maxapps", confMaxAppsLeaf, appsMaxApps), Monitors: []mc.Monitor{monC11()}})
 	mc.Register(&mc.ScenarioDef{Scn: scnLifecycle("lifecycle"), Monitors: []mc.Monitor{monC10()}})
 
+	// reloads that change a maximum only by adding a type with quantity 0 (forbidden) or by removing it again (unlimited)
+	qz := scnQueueMax("qmax-reload-zero", confMaxLeaf, nil)
+	qz.Configs = []string{confMaxLeaf, strings.Replace(confMaxLeaf, "max: {memory: 3}", "max: {memory: 3, gpu: 0}", 1), strings.Replace(confMaxLeaf, "max: {memory: 2, vcore: 2}", "max: {memory: 2, vcore: 0}", 1)}
+	qz.Nodes = []world.NodeSpec{{ID: "n1", Cap: Res{"memory": 6, "vcore": 6, "gpu": 2}}}
+	qz.Alphabet = []string{"SCHEDULE", "ASK", "RELEASE", "CONFIG", "APP_ADD"}
+	mc.Register(&mc.ScenarioDef{Scn: qz, Monitors: []mc.Monitor{monC02()}})
 	registerCheck(&CheckDef{Prop: "C02", Level: "model_checking", Technique: tE1,
-		Quick:       []Run{{Scenario: "qmax-leaf", Depth: 6, MapModes: []int{1}}, {Scenario: "qmax-parent", Depth: 6, MapModes: []int{1}}, {Scenario: "qmax-dynamic", Depth: 6, MapModes: []int{1}}, {Scenario: "gang-sparse-qmax", Depth: 6, MapModes: []int{1}}},
-		Thorough:    []Run{{Scenario: "gang-sparse-qmax", Depth: 9, MapModes: []int{1}}, {Scenario: "qmax-leaf", Depth: 8, MapModes: []int{1, 2}}, {Scenario: "qmax-parent", Depth: 8, MapModes: []int{1, 2}}, {Scenario: "qmax-dynamic", Depth: 8, MapModes: []int{1, 2}}},
+		Quick:       []Run{{Scenario: "qmax-leaf", Depth: 6, MapModes: []int{1}}, {Scenario: "qmax-parent", Depth: 6, MapModes: []int{1}}, {Scenario: "qmax-dynamic", Depth: 6, MapModes: []int{1}}, {Scenario: "gang-sparse-qmax", Depth: 6, MapModes: []int{1}}, {Scenario: "qmax-reload-zero", Depth: 6, MapModes: []int{1}}},
+		Thorough:    []Run{{Scenario: "qmax-reload-zero", Depth: 8, MapModes: []int{1}}, {Scenario: "gang-sparse-qmax", Depth: 9, MapModes: []int{1}}, {Scenario: "qmax-leaf", Depth: 8, MapModes: []int{1, 2}}, {Scenario: "qmax-parent", Depth: 8, MapModes: []int{1, 2}}, {Scenario: "qmax-dynamic", Depth: 8, MapModes: []int{1, 2}}},
 		QuickBudget: 150 * time.Second, ThoroughBudget: 12 * time.Minute,
 		// the moment of the decision under concurrency: scheduling cycle || allocation placed by the RM in the same leaf
 		Also: c14Part("C02", "c02ilv", "step-C02-", func(n string) bool {
